@@ -86,6 +86,15 @@ func (v *parser_) ParseSource(source string) (collection any) {
 	// The scanner runs in a separate Go routine.
 	Scanner().Make(v.source_, v.tokens_)
 
+	// Make sure the scanner is never left blocked on a full token queue, even
+	// when the parsing below fails.  The scanner closes the queue when done.
+	var tokens = v.tokens_
+	defer func() {
+		for ok := true; ok; {
+			_, ok = tokens.RemoveHead()
+		}
+	}()
+
 	// Attempt to parse a collection.
 	var token TokenLike
 	var ok bool
